@@ -2951,6 +2951,7 @@ func (self *LockDB) HasLock(command *protocol.LockCommand, aofLockData []byte) b
 				lockManager.glock.LowPriorityUnlock()
 				return false
 			}
+			command.TimeoutFlag = currentLock.command.TimeoutFlag
 			if aofLockData == nil {
 				if !lockManager.CheckLockedEqual(currentLock, command) {
 					lockManager.glock.LowPriorityUnlock()
